@@ -61,6 +61,8 @@ struct ARun {
   size_t unknown = 0;
   // per-array history facts (non-triviality)
   bool grew = false, shrunk = false;
+  // a shrink whose realloc failed keeps the large block (documented); the factor-4 bound is due again after the next growth or successful shrink
+  bool exempt = false;
   std::set<size_t> recs;
   size_t opno = 0;
   std::string opname;
@@ -124,6 +126,7 @@ struct ARun {
     unknown = 0;
     model_resize(n * r);
     grew = shrunk = false;
+    exempt = false;
     recs.clear();
     recs.insert(r);
     if (n * r > 0) o.cls("init-nonempty");
@@ -148,7 +151,7 @@ struct ARun {
       o.fail("ea-alloc-lt-size", ctx() + fmt(": library holds %zu bytes of storage for %zu bytes of contents", a, sz));
       return;
     }
-    if (a / 4 > sz) {
+    if (a / 4 > sz && !exempt) {
       o.fail("ea-factor4", ctx() + fmt(": allocated %zu bytes for %zu bytes of contents (floor(alloc/4) = %zu > size)", a, sz, a / 4));
       return;
     }
@@ -259,6 +262,7 @@ struct ARun {
       model_resize(sz + n * r);
       model_write(sz, b);
       if (n == 0) o.cls("append-0-records");
+      if (n * r > 0 && exempt) exempt = false, o.cls("growth after a shrink whose realloc failed");
       note_alloc_change(a0, alloc(), false);
       check(r, sz, sz + n * r);
     } else if (k == "appn") {  // appn k r seed: k single-record appends (amortised growth)
@@ -282,14 +286,18 @@ struct ARun {
       uint64_t nre = trk_allocs() - al0;
       model_resize(sz + kk * r);
       model_write(sz, b);
+      // after a refused shrink the run starts by giving the oversize block back: the starting capacity that counts is the contents' size
+      size_t cap0 = exempt ? std::min(a0, std::max<size_t>(sz, 1)) : a0;
+      uint64_t extra = exempt ? 1 : 0;
+      if (kk * r > 0 && exempt) exempt = false, o.cls("growth after a shrink whose realloc failed");
       note_alloc_change(a0, alloc(), false);
       check(r, sz, sz + kk * r);
       // amortised O(1) appends (header: "amortized optimal running time"): geometric
       // growth means at most 2 + log2(end / max(start capacity, reclen)) reallocations;
       // allow twice that (+4) so that any growth factor >= sqrt(2) passes.
       if (o.ok && kk > 0) {
-        u128 ratio = ((u128)(sz + kk * r) + std::max(a0, r) - 1) / std::max(a0, r);
-        uint64_t lim = 4 + 2 * (uint64_t)log2ceil(ratio);
+        u128 ratio = ((u128)(sz + kk * r) + std::max(cap0, r) - 1) / std::max(cap0, r);
+        uint64_t lim = 4 + extra + 2 * (uint64_t)log2ceil(ratio);
         if (nre > lim)
           o.fail("ea-amortised", ctx() + fmt(": %llu reallocations for %zu single appends growing %zu -> %zu bytes (limit %llu): growth is not geometric",
                                                (unsigned long long)nre, kk, sz, sz + kk * r, (unsigned long long)lim));
@@ -309,6 +317,7 @@ struct ARun {
       model_resize(n * r);
       if (n * r > sz) o.cls("resize-grow-uninit");
       if (n == 0) o.cls("resize-to-0");
+      if (n * r != sz) exempt = false;
       note_alloc_change(a0, alloc(), n * r < sz);
       check(r, std::min(sz, n * r), n * r);
     } else if (k == "shr" || k == "shrn") {
@@ -326,7 +335,17 @@ struct ARun {
       for (size_t i = 0; i < reps && o.ok; i++) {
         size_t cur = d.size();
         size_t b0 = alloc();
+        bool inject = k == "shr" && arg(op, 3, 0) == 1;
+        uint64_t f0 = trk_failed_shrinks();
+        if (inject) trk_fail_shrinks(1);
         ea_shrink(ty, ea, n, r);
+        trk_fail_shrinks(0);
+        if (trk_failed_shrinks() != f0) {
+          exempt = true;
+          o.cls("shrink whose realloc failed (large block kept)");
+          if (alloc() != b0) o.fail("ea-failed-realloc-changed-storage", ctx() + fmt(": realloc failed, yet the storage changed from %zu to %zu bytes", b0, alloc()));
+        } else if (n * r > 0 && cur > 0)
+          exempt = false;
         if ((u128)n * r > cur) {
           model_resize(0);
           o.cls("shrink-more-than-present");
@@ -623,7 +642,7 @@ static rc::Gen<Op> gen_aop(int tier, bool typed) {
     }
     case 3: {
       auto mv = *gen_count(tier, true);
-      return Op("shr", {mv.first, mv.second, r});
+      return Op("shr", {mv.first, mv.second, r, *range<int>(0, 4) == 0 ? 1 : 0});  // last field 1: the allocator refuses to shrink the block
     }
     case 4:
       return Op("shrn", {*range<int64_t>(1, tier ? 600 : 150), r});
